@@ -495,6 +495,11 @@ namespace bxdecay0 {
             = (_pimpl_->tab_prob.e_max[0] - _pimpl_->tab_prob.e_min[0]) / (_pimpl_->tab_prob.nsamples - 1);
         for (int i = 0; i < (int)_pimpl_->tab_prob.nsamples; i++) {
           double ei = _pimpl_->tab_prob.e_min[0] + i * _pimpl_->tab_prob.energy_step;
+          if (i > 0 and !(ei > _pimpl_->tab_prob.energies.back())) {
+            // E_min and E_max too close: the sampled energies would not be strictly increasing
+            // (the GSL interpolator calls the GSL error handler - abort by default - on such a grid)
+            throw std::logic_error("bxdecay0::dbd_gA::_load_tabulated_pdf_: Sampled energies are not strictly increasing!");
+          }
           _pimpl_->tab_prob.energies.push_back(ei);
           _pimpl_->tab_prob.e_samples[0].push_back(ei);
           _pimpl_->tab_prob.e_samples[1].push_back(ei);
